@@ -128,15 +128,30 @@ class Runner:
         self.forced = 0
 
     def query(self, m, dove, path):
-        """One call of get_consensus on molecule m through one of its two return shapes."""
+        """One call of get_consensus on molecule m through one of its two return shapes. Total on malformed return values: the
+        raw shape (type name, length, type of the first element) is always recorded; the consensus list only when the value
+        has the documented shape (a dict for the plain call, a 3-tuple whose first element is a dict otherwise)."""
         try:
             if path == 'plain':
-                cons = m.get_consensus(dove_safe=dove)
+                ret = m.get_consensus(dove_safe=dove)
             else:   # (consensus, phred_scores, consensii) - the shape the TAPS caller uses
-                cons = m.get_consensus(dove_safe=dove, with_probs_and_obs=True)[0]
+                ret = m.get_consensus(dove_safe=dove, with_probs_and_obs=True)
         except Exception as ex:  # a crash of the code under test is an observation
             return {'raised': type(ex).__name__}
-        return {'consensus': [{'c': str(k[0]), 'pos': int(k[1]), 'b': str(v)} for k, v in cons.items()]}
+        out = {'rtype': type(ret).__name__, 'rlen': len(ret) if hasattr(ret, '__len__') else -1, 'first_type': ''}
+        cons = ret
+        if path != 'plain':
+            if isinstance(ret, tuple) and len(ret) > 0:
+                out['first_type'] = type(ret[0]).__name__
+                cons = ret[0]
+            else:
+                cons = None
+        if isinstance(cons, dict):
+            try:
+                out['consensus'] = [{'c': str(k[0]), 'pos': int(k[1]), 'b': str(v)} for k, v in cons.items()]
+            except Exception:      # keys / values that are not ((contig, position), base)
+                out['malformed_entries'] = True
+        return out
 
     def run(self, ref, mol, order, dove, kind, incremental=False, probs=True, merge=False):
         """Build a fresh molecule, add the fragments in `order`. Returns the list of recorded queries:
